@@ -519,3 +519,84 @@ Proof.
   - destruct (Z.gtb_spec a b), (Z.ltb_spec a b), (Z.gtb_spec b a), (Z.ltb_spec b a); lia.
   - destruct (Z.gtb_spec a b), (Z.ltb_spec a b), (Z.gtb_spec b c), (Z.ltb_spec b c), (Z.gtb_spec a c), (Z.ltb_spec a c); lia.
 Qed.
+
+(* ---------- with distinct values, the pre-order and in-order walks determine the tree ---------- *)
+Section Walks.
+Context {A : Type}.
+Implicit Types (t : tree (A:=A)).
+
+(* the tree without its cached heights *)
+Fixpoint skel t : tree (A:=A) :=
+  match t with E => E | N l v _ r => N (skel l) v 0 (skel r) end.
+
+Lemma skel_walks t : preorder (skel t) = preorder t /\ inorder (skel t) = inorder t /\ postorder (skel t) = postorder t.
+Proof.
+  induction t as [|l (IHl1 & IHl2 & IHl3) v h r (IHr1 & IHr2 & IHr3)]; cbn [skel preorder inorder postorder]; [auto|].
+  rewrite IHl1, IHl2, IHl3, IHr1, IHr2, IHr3. auto.
+Qed.
+
+Lemma NoDup_split_unique (v : A) (a b a' b' : list A) :
+  NoDup (a ++ v :: b) -> a ++ v :: b = a' ++ v :: b' -> a = a' /\ b = b'.
+Proof.
+  revert a'. induction a as [|x a IH]; intros [|y a'] ND H; cbn [app] in *.
+  - injection H as ->. auto.
+  - injection H as <- ->. inversion ND as [|? ? Hn _]; subst. exfalso. apply Hn. apply in_elt.
+  - injection H as -> <-. inversion ND as [|? ? Hn _]; subst. exfalso. apply Hn. apply in_elt.
+  - injection H as <- H. inversion ND as [|? ? _ ND']; subst. destruct (IH a' ND' H) as (-> & ->). auto.
+Qed.
+
+Lemma app_inv_length (a b a' b' : list A) : length a = length a' -> a ++ b = a' ++ b' -> a = a' /\ b = b'.
+Proof.
+  revert a'. induction a as [|x a IH]; intros [|y a'] L H; cbn [length app] in *; try discriminate; auto.
+  injection H as <- H. destruct (IH a' (eq_add_S _ _ L) H) as (-> & ->). auto.
+Qed.
+
+Lemma NoDup_app_both (a b : list A) : NoDup (a ++ b) -> NoDup a /\ NoDup b.
+Proof.
+  induction a as [|x a IH]; cbn [app]; intro ND; [split; [constructor | exact ND]|].
+  inversion ND as [|? ? Hn ND']; subst. destruct (IH ND') as (Na & Nb). split; [|exact Nb].
+  constructor; [|exact Na]. intro I. apply Hn. apply in_or_app. left. exact I.
+Qed.
+
+Theorem walks_determine_tree t : forall t', NoDup (inorder t) ->
+  preorder t = preorder t' -> inorder t = inorder t' -> skel t = skel t' /\ postorder t = postorder t'.
+Proof.
+  assert (K : forall t', NoDup (inorder t) -> preorder t = preorder t' -> inorder t = inorder t' -> skel t = skel t').
+  { induction t as [|l IHl v h r IHr]; intros t' ND Hp Hi.
+    - destruct t'; [reflexivity | discriminate Hp].
+    - destruct t' as [|l' v' h' r']; [discriminate Hp|]. cbn [preorder inorder skel] in *.
+      injection Hp as <- Hp.
+      destruct (NoDup_split_unique v _ _ _ _ ND Hi) as (Hil & Hir).
+      assert (Ll : length (preorder l) = length (preorder l')).
+      { rewrite (Permutation_length (preorder_perm l)), (Permutation_length (preorder_perm l')), Hil. reflexivity. }
+      destruct (app_inv_length _ _ _ _ Ll Hp) as (Hpl & Hpr).
+      apply NoDup_remove_1 in ND. destruct (NoDup_app_both _ _ ND) as (Nl & Nr).
+      rewrite (IHl l' Nl Hpl Hil), (IHr r' Nr Hpr Hir). reflexivity. }
+  intros t' ND Hp Hi. pose proof (K t' ND Hp Hi) as S. split; [exact S|].
+  rewrite <- (proj2 (proj2 (skel_walks t))), <- (proj2 (proj2 (skel_walks t'))), S. reflexivity.
+Qed.
+
+End Walks.
+
+(* ... and so does a lexicographic comparator on a two-field struct with the derived ==
+   (the harness's Pair{A,B} element type) *)
+Definition paireqb (p q : Z * Z) : bool := Z.eqb (fst p) (fst q) && Z.eqb (snd p) (snd q).
+Definition paircompare (p q : Z * Z) : Z :=
+  let c := zcompare (fst p) (fst q) in if c =? 0 then zcompare (snd p) (snd q) else c.
+
+Ltac zcases :=
+  repeat match goal with
+  | |- context [?x >? ?y] => destruct (Z.gtb_spec x y)
+  | |- context [?x <? ?y] => destruct (Z.ltb_spec x y)
+  end; cbn [Z.eqb Pos.eqb].
+
+Lemma paircompare_TotalOrderEq : TotalOrderEq paireqb paircompare.
+Proof.
+  split; intros [a1 a2] [b1 b2]; [| | |intros [c1 c2]]; unfold paireqb, paircompare, zcompare; cbn [fst snd].
+  - rewrite andb_true_iff, !Z.eqb_eq. split; [intros [-> ->]; reflexivity | intro H; injection H; auto].
+  - split.
+    + intro H. assert (a1 = b1 /\ a2 = b2) as [-> ->]; [|reflexivity]. revert H. zcases; lia.
+    + intro H; injection H as -> ->. zcases; lia.
+  - zcases; lia.
+  - zcases; lia.
+Qed.
